@@ -11,7 +11,7 @@ CHECKS = {
   "Every response, sampled read, applied/leader index and the final dump of seeded command histories (nasty keys, all flag combinations, random apply batches, 1-2 MiB values) is compared with an executable reference map; held on the histories produced, nothing claimed beyond them.",
   "Trusts the reference model (internal/model) and pebble/dragonboat as libraries; keys non-empty; fields nobody asked for are not judged."),
  "C02": ("exploration",
-  "runtime monitoring: generated transactions embedded in apply batches of the real FSM, differential write-path vs read-only path, concurrent-reader view monitor, engine run",
+  "runtime monitoring: generated transactions embedded in apply batches of the real FSM, differential write-path vs read-only path, concurrent-reader view monitor, range predicates over more than one read message, engine run incl. slow commits",
   "Succeeded flag, n-th response and post-state of seeded transactions (range/existence/ordering predicates, overlapping ops, after uncommitted batch content) are compared with a reference model; read-only transactions are run through both Lookup and Update and must agree; concurrent readers must only ever see whole-transaction states, also for apply calls above the 16 MiB batch bound; the succeeded flag of a read-only transaction must agree with what its own branch reads while the table is being rewritten.",
   "Trusts the reference model; crash atomicity is delegated to C04's crash histories (they contain transactions)."),
  "C03": ("exploration",
@@ -31,7 +31,7 @@ CHECKS = {
   "Every mutating file-system operation boundary of seeded scenarios (first open, apply, Sync, close/reopen, snapshot recovery in all format pairs, stopped recovery) is used as a crash point (all k for small scenarios, every distinct site + random k for larger ones, plus second crashes during recovery); after each crash a new FSM is opened and must report an index >= the last completed Sync, show exactly the model state at that index, and reach the no-crash final state after replay with per-entry results equal to the model's.",
   "Fault model as stated in the property (strict MemFS: unsynced data and directory entries lost, synced ones kept); no torn writes / partial persistence; pebble trusted as a library."),
  "C06": ("exploration",
-  "runtime monitoring: real Simple/Cached log readers over a scripted dragonboat-contract log (differential cached vs uncached + interval oracle), and the real LogServer.Replicate over gRPC on a real compacting Raft log judged against the harness's own proposal record",
+  "runtime monitoring: real Simple/Cached log readers over a scripted dragonboat-contract log (differential cached vs uncached + interval oracle), the real LogServer.Replicate over gRPC on a real compacting Raft log judged against the harness's own proposal record, and the real `regatta leader` binary under message-size flags with single entries above the limit",
   "Reader level: seeded query sequences shaped like Replicate calls (several calls in progress, late compaction events, all entry types, size limits on exact boundaries, cache sizes 1..100) judged per query; server level: every start index 0..applied+2 after real histories with real log compaction, three message-size limits, cached and uncached server, byte-exact command comparison.",
   "The scripted log mirrors dragonboat v4's LogReader contract as read from the module source; cache staleness between a compaction and the delivery of its event is allowed as production delivers it asynchronously."),
  "C08": ("exploration",
@@ -55,7 +55,7 @@ CHECKS = {
   "After every delivery step each view must equal the join of what reached it and never move to a lower term or from a leader to none; final views must be identical across all deliveries of a multiset (exhaustive for <=6 updates); live: per (observer,node,shard) the term in response headers never decreases and the leader never returns to 0, and headers converge to Raft's answer after transfers.",
   "Multisets are Raft-consistent by construction (one leader per term, one membership per config-change index); convergence bounds are watchdogs (inconclusive on expiry), a stale-leader-after-transfer observation is recorded in the evidence, not judged."),
  "C10": ("exploration",
-  "runtime monitoring: client-boundary history recording on a real 3-node cluster with one artificially lagging replica; offline history checker (revision-order replay through the reference model, read windows) plus porcupine on register keys; self-consistency probes (read-only transactions with slow predicates, multi-message streams over a table whose two markers are rewritten together); race detector build",
+  "runtime monitoring: client-boundary history recording on a real 3-node cluster with one artificially lagging replica; offline history checker (revision-order replay through the reference model, read windows) plus porcupine on register keys; self-consistency probes (read-only transactions with slow predicates, multi-message streams over a table whose two markers are rewritten together); linearizable reads on a cut-off replica that still believes to lead; race detector build",
   "Concurrent histories (puts, deletes, bounded range deletes, transactions incl. empty-branch and read-only ones, linearizable and serializable reads on every node, half of the reads on the lagging replica right after the client's own acknowledged write) are judged (writers also issue empty-branch transactions in simultaneous bursts; probe readers run self-consistency read-only transactions with slow predicates): revisions non-zero, distinct and real-time consistent; replay in revision order explains every response; linearizable reads and read-only txns match a state inside their real-time window, serializable reads some existing prefix.",
   "No client-visible faults injected: a run with a failed/timed-out write is discarded as inconclusive; lag is produced by stalling the apply path of node 3 (AppliedIndexListener); history taken at the engine API the gRPC service calls."),
  "C16": ("exploration",
